@@ -54,7 +54,8 @@ def make_interp(timeout_ms):
     I = Interp(REPO, stdlib_paths=_STD, timeout_ms=timeout_ms)
     spec.install_spec_fns(I)
     for c in load_contracts():
-        I.contracts[c.key] = c
+        if c.modular:
+            I.contracts[c.key] = c
         if c.loops:
             I.loopspecs.setdefault((c.path, c.qualname), {}).update(c.loops)
     for m in getattr(spec, 'EXTRA_INSTALLERS', []):
